@@ -241,6 +241,25 @@ def required_in_dump(d, pre=()):
     return out
 
 
+def add_shared(rng, case):
+    """the same case with one sub-tree of the first document (preferably one holding a placeholder) anchored and aliased under a
+    new last top-level key, directly or one mapping deeper: one node object at two paths. Outside the model (compare = SKIP);
+    the rule is checked on the implementation alone, against the merged tree as the public child API shows it."""
+    case = copy.deepcopy(case)
+    raw = case['docs'][0]['raw']
+    cands = [(p, n) for p, n in G.paths_of(raw) if p and 'alias' not in n]
+    if not cands:
+        return None
+    withreq = [(p, n) for p, n in cands if placeholder_paths(n)]
+    p, n = rng.choice(withreq if withreq and rng.random() < 0.8 else cands)
+    n['anchor'] = 'sh1'
+    al = {'alias': 'sh1'}
+    raw['m'].append(['shared', al if rng.random() < 0.5 else {'m': [['first', al], ['n', {'s': {'l': 2}}]]}])
+    case['shared'] = True
+    case['style'] = [case['style'][0] if case['style'][0] != 'blocklit' else 'block', 0, 0]
+    case['actions'] = list(case.get('actions', [])) + ['shared-node']
+    return case
+
 class C14(MergeFamProp):
     ID = 'C14'
     WORLD = WORLD
@@ -288,12 +307,16 @@ class C14(MergeFamProp):
             H('source', [M([('a', S(1)), ('t', Stext('T(S1)', 'eval'))]), M([('a', R())]), M([('a', S(2))])], [0, 1]),
         ]
 
+    P_SHARED = 0.08     # share of cases in which a YAML anchor/alias places one node object at two paths (oracle only)
+
     def gen_cases(self, rng, n, tier):
         out = []
         for i in range(n):
             c = gen_case(rng, hist=rng.random() < self.P_HIST)
             st = self.STYLES[rng.randrange(len(self.STYLES))] if rng.random() < 0.4 else self.STYLES[0]
             c['style'] = list(st)
+            if not c.get('hist') and rng.random() < self.P_SHARED:
+                c = add_shared(rng, c) or c
             out.append(c)
         return out
 
@@ -307,6 +330,8 @@ class C14(MergeFamProp):
         return io
 
     def model_requests(self, case):
+        if case.get('shared'):
+            return []
         docs = plain_docs(case['docs'])
         reqs = [{'op': 'merge', 'docs': docs}, {'op': 'config', 'docs': docs, 'world': self.WORLD}]
         if case.get('hist'):
@@ -315,6 +340,8 @@ class C14(MergeFamProp):
         return reqs
 
     def model_obs(self, case, answers):
+        if case.get('shared'):
+            return {'shared': True}
         mo = {'tree': answers[0], 'cfg': answers[1]}
         if case.get('hist'):
             ks = cut_points(case['docs'])
@@ -323,6 +350,8 @@ class C14(MergeFamProp):
         return mo
 
     def compare(self, case, io, mo):
+        if case.get('shared'):
+            return 'SKIP'           # node sharing is outside the model's domain
         d = super().compare(case, io, mo)
         if d is not None or not case.get('hist'):
             return d
